@@ -135,11 +135,11 @@ def _args(name):
     if name == "bernoulli":
         return T(fl(0.0, 1.0)).map(list)
     if name == "geometric":
-        return T(fl(0.01, 0.99)).map(list)
+        return T(fl(0.01, 1.0)).map(list)          # p = 1 is inside the documented domain (0, 1]
     if name == "binomial":
         return T(_ints(1, 50), fl(0.01, 1.0)).map(list)
     if name in ("negative_binomial", "pascal"):
-        return T(_ints(1, 10), fl(0.05, 0.99)).map(list)
+        return T(_ints(1, 10), fl(0.05, 1.0)).map(list)
     if name == "poisson":
         return T(fl(0.01, 30)).map(list)
     if name == "dice":
